@@ -122,12 +122,16 @@ def detect(name, patch, props):
 
 def main():
     mode, name, patch = sys.argv[1], sys.argv[2], sys.argv[3]
-    m = load_meta(name)
+    # the long operation first, then read-modify-write of meta.json (another job may have written meanwhile)
     if mode == "confirm":
-        m["confirmation"] = confirm(name, patch, sys.argv[4])
-        print(json.dumps(m["confirmation"], indent=1))
+        c = confirm(name, patch, sys.argv[4])
+        m = load_meta(name)
+        m["confirmation"] = c
+        print(json.dumps(c, indent=1))
     else:
-        m.setdefault("detection", {}).update(detect(name, patch, sys.argv[4:]))
+        d = detect(name, patch, sys.argv[4:])
+        m = load_meta(name)
+        m.setdefault("detection", {}).update(d)
     save_meta(name, m)
 
 
